@@ -84,6 +84,7 @@ func init() {
 				for a := 0; a < 256; a++ {
 					pixels = append(pixels, color.NRGBA{200, 100, 50, uint8(a)})
 				}
+				bulk := 0
 				for pi, px := range pixels {
 					lr, lg, lb, alpha := sApi.nrgba(px)
 					x := src.toXYZ(lr, lg, lb)
@@ -92,8 +93,15 @@ func init() {
 					}
 					dr, dg, db := dst.fromXYZ(x)
 					out, _, _ := colourEncode(dst.name, dr, dg, db, alpha)
-					in := map[string]interface{}{"from": src.name, "to": dst.name, "pixel": fmt.Sprint(px)}
-					c.res.count(src.name+"->"+dst.name, fmt.Sprint(si, di, px), true)
+					// (the input description is built only when a failure is reported; in the thorough tier the
+					// 2^24-point lattice is counted in bulk: its points are distinct by construction, and a set of
+					// 2.7e8 keys would not fit in memory)
+					in := map[string]interface{}{"from": src.name, "to": dst.name, "pixel": px}
+					if c.thorough {
+						bulk++
+					} else {
+						c.res.count(src.name+"->"+dst.name, fmt.Sprint(si, di, px), true)
+					}
 					if out.A != px.A {
 						c.res.fail(Failure{Class: "C04:alpha", Desc: "alpha is not returned unchanged", Input: in, Got: fmt.Sprint(out), Want: fmt.Sprintf("alpha %d", px.A)})
 					}
@@ -142,6 +150,7 @@ func init() {
 						}
 					}
 				}
+				c.res.countBulk(src.name+"->"+dst.name, bulk)
 			}
 		}
 		_ = math.Abs
